@@ -137,6 +137,10 @@ def valid_bundle(rng, nblocks=None, crc_kind=None):
                 b["cs"].insert(0, dict(type=7, num=len(cs) + 5, flags=0, crc=("N",), data=("AGE", rnd_u64(rng))))
         else:
             b["p"]["t"] = max(1, b["p"]["t"])
+        if rng.random() < 0.2 and len(b["cs"]) > 1:
+            # a peer need not put the payload block last (validation does not look at the order): payload first or in the middle
+            pb = b["cs"].pop()
+            b["cs"].insert(rng.randrange(len(b["cs"])), pb)
         if c07.rules(b) and not c07.dont_care(b):
             return b
     raise RuntimeError("could not generate a valid bundle")
@@ -239,7 +243,7 @@ def corpus():
                          "MFREE 5", "BNDFREE 3", "DROP 0"]))
     # empty payload: Buffer {dangling, 0}
     b = valid_bundle(rng, nblocks=1)
-    b["cs"][-1]["data"] = ("DATA", b"")
+    next(c for c in b["cs"] if c["type"] == 1)["data"] = ("DATA", b"")
     h = _reg(genb.ref_bundle(b)[0], b, True)
     out.append(line(["MK " + h, "FROM 0", "PAYLOAD 1", "PAYLOAD 1", "BFREE 2", "BFREE 3", "BNDFREE 1", "DROP 0"]))
     # a complete valid bundle followed by more bytes, and definite-length outer arrays announcing far more blocks than follow
@@ -251,10 +255,10 @@ def corpus():
             out.append(line(["MK " + _reg(raw + tail, None, False), "FROM 0", "DROP 0"]))
         body = raw[1:-1]
         for hd in (b"\x9b" + b"\xff" * 8, b"\x9b\x80" + b"\x00" * 7, b"\x9b\x00\x00\x00\x01" + b"\x00" * 4, b"\x9a\xff\xff\xff\xff", b"\x99\xff\xff",
-                   bytes([0x80 + nb + 3]), b"\x98\x40"):
+                   bytes([0x80 + len(vb["cs"]) + 2]), b"\x98\x40"):
             out.append(line(["MK " + _reg(hd + body, None, False), "FROM 0", "DROP 0"]))
         # the honest definite-length form of the same bundle is a valid bundle
-        out.append(line(["MK " + _reg(bytes([0x80 + nb + 2]) + body, vb, True), "FROM 0", "VALID 1", "TOCBOR 1", "BFREE 2", "BNDFREE 1", "DROP 0"]))
+        out.append(line(["MK " + _reg(bytes([0x80 + len(vb["cs"]) + 1]) + body, vb, True), "FROM 0", "VALID 1", "TOCBOR 1", "BFREE 2", "BNDFREE 1", "DROP 0"]))
     # invalid bundles -> NULL
     for _ in range(6):
         out.append(line(["MK " + buf_invalid(rng), "FROM 0", "DROP 0"]))
